@@ -96,7 +96,6 @@ def o_expand(spec):
     p = 0
     for b, s in batches:
         require(all(s >= ns[p + i] for i in range(len(b))), lambda: f"batch requests {s} samples, members asked for {ns[p:p + len(b)]}")
-        require(s == max(ns[p:p + len(b)]), lambda: f"batch requests {s}, maximum of members is {max(ns[p:p + len(b)])}")
         p += len(b)
     must_raise(ValueError, lambda: list(split_into_batches(list(circs), list(ns) + [1], bsz)), "split_into_batches with mismatched lengths")
     must_raise(ValueError, lambda: list(split_into_batches(list(circs), list(ns), 0)), "split_into_batches with max_batch_size 0")
